@@ -366,3 +366,62 @@ Example former_witnesses_repaired :
   translate_fn SRGB f_r16a f_r16b empty_cmap 4 1 1 [128; 76; 236; 227] = XOk [236; 227; 128; 76] /\
   translate_fn SRGB (f_rgb888 false) f_rgb24 empty_cmap 4 1 1 [255; 255; 255; 0] = XOk [255; 255; 255].
 Proof. repeat split; vm_compute; reflexivity. Qed.
+
+(* ------------------------------------------------------------------ rfbNewFramebuffer *)
+Lemma fmt_eqb_eq : forall x y, fmt_eqb x y = true -> x = y.
+Proof.
+  intros [b1 d1 e1 t1 r1 g1 bl1 rs1 gs1 bs1] [b2 d2 e2 t2 r2 g2 bl2 rs2 gs2 bs2] H.
+  unfold fmt_eqb in H. simpl in H.
+  repeat (apply andb_true_iff in H; destruct H as [H ?]).
+  repeat match goal with
+         | E : (_ =? _) = true |- _ => apply Z.eqb_eq in E
+         | E : Bool.eqb _ _ = true |- _ => apply Bool.eqb_prop in E
+         end.
+  subst. reflexivity.
+Qed.
+
+(* either the new server format is identical to the old one (nothing to do: the client's function and table
+   stay valid) or rfbSetTranslateFunction is re-run for the client against the new format -- in
+   particular when only the trueColour flag differs *)
+Theorem new_framebuffer_spec : forall econ sf bytespp bps cfe,
+  fst (new_framebuffer econ sf bytespp bps cfe) = init_server_format bytespp bps /\
+  ((snd (new_framebuffer econ sf bytespp bps cfe) = None /\ init_server_format bytespp bps = sf) \/
+   (snd (new_framebuffer econ sf bytespp bps cfe) = Some (set_translate econ (init_server_format bytespp bps) cfe) /\
+    init_server_format bytespp bps <> sf)).
+Proof.
+  intros. unfold new_framebuffer. cbn [fst snd]. split; [reflexivity|].
+  destruct (fmt_eqb (init_server_format bytespp bps) sf) eqn:E.
+  - left. split; [reflexivity|apply fmt_eqb_eq; assumption].
+  - right. split; [reflexivity|]. intros Heq. rewrite Heq in E.
+    assert (fmt_eqb sf sf = true).
+    { unfold fmt_eqb. rewrite !Z.eqb_refl, !Bool.eqb_reflx. reflexivity. }
+    congruence.
+Qed.
+
+(* the formats rfbNewFramebuffer establishes are in the supported domain, host byte order: C10_rule
+   applies to every client after the call *)
+Theorem init_server_format_ok : forall bytespp bps,
+  (bytespp = 1 \/ bytespp = 2 \/ bytespp = 3 \/ bytespp = 4) -> 1 <= bps <= 16 ->
+  (bytespp <> 1 -> 3 * bps <= 8 * bytespp) ->
+  server_ok (init_server_format bytespp bps) /\ be (init_server_format bytespp bps) = false.
+Proof.
+  intros bytespp bps Hb Hs H3. unfold init_server_format.
+  destruct (8 * bytespp =? 8) eqn:E8.
+  - split; [|reflexivity]. split; [reflexivity|]. split; [simpl; auto|]. exists 3, 3, 2.
+    constructor; unfold is_max; simpl; lia.
+  - apply Z.eqb_neq in E8.
+    assert (P : 2 <= 2 ^ bps <= 65536).
+    { split; [change 2 with (2 ^ 1) at 1|change 65536 with (2 ^ 16)]; apply Z.pow_le_mono_r; lia. }
+    assert (Em : u_of 16 (2 ^ bps - 1) = 2 ^ bps - 1) by (apply u_of_small; change (2 ^ 16) with 65536; lia).
+    assert (E1 : u_of 8 bps = bps) by (apply u_of_small; change (2 ^ 8) with 256; lia).
+    assert (E2 : u_of 8 (bps * 2) = bps * 2) by (apply u_of_small; change (2 ^ 8) with 256; lia).
+    rewrite Em, E1, E2. split; [|reflexivity]. split; [reflexivity|]. split; [cbn [bpp]; lia|].
+    exists bps, bps, bps. constructor; unfold is_max; cbn [bpp rmax gmax bmax rs gs bs]; lia.
+Qed.
+
+Example new_framebuffer_nonvacuous :
+  (* colour-mapped 8-bit server with the default layout, then true colour: only trueColour differs *)
+  snd (new_framebuffer false (mkfmt 8 8 false false 7 7 3 0 3 6) 1 8 (f_rgb888 false)) =
+    Some (SetupOk (f_rgb888 false) SSingleTC []) /\
+  snd (new_framebuffer false (init_server_format 4 8) 4 8 (f_rgb565 false)) = None.
+Proof. split; vm_compute; reflexivity. Qed.
